@@ -44,6 +44,54 @@ def mkmodule(name: str = "module", **attrs: Any) -> Obj:
     return m
 
 
+def is_optimize_result(v: Any) -> bool:
+    """v is the value returned by torch._dynamo.optimize(...) (the decorator applied to module / function)."""
+    t = TM.term_of(v)
+    return isinstance(t, T) and t.op == "call" and t.args[0] == "torch._dynamo.optimize"
+
+
+def check_root_entry(report: Report, repo: Repo, rule: str) -> None:
+    """The callable that apply_transform hands to TorchDynamo must have a user-code outermost frame.
+
+    Trusted fact about TorchDynamo (recorded as an assumption): a frame whose code lives in torch/nn (the
+    forward of nn.Linear, nn.Sequential, ...) is only traced when it is *inlined* from a traced caller;
+    as the outermost frame it is skipped and runs eagerly, so no backend is ever invoked.  Hence: when the
+    root module's class is defined in torch.nn / torch.ao, Dynamo must be given a function defined in the
+    repository that calls the module, not the module itself.  (For a root of a user-defined class either
+    form is traced.)"""
+    opq = lambda f: isinstance(f, FuncV) and f.qualname in OPAQUE_HELPERS
+    cons = f"{TU}::apply_transform::dynamo-entry"
+    for sname, cls_name, modname in (
+        ("root is a user-defined module", "user_code.models.Net", "user_code.models"),
+        ("root is torch.nn.Sequential", "torch.nn.modules.container.Sequential", "torch.nn.modules.container"),
+        ("root is torch.nn.Linear", "torch.nn.modules.linear.Linear", "torch.nn.modules.linear"),
+    ):
+        it = Interp(repo, opaque=opq)
+        at = it.get_global(TU, "apply_transform")
+        m = Obj(cls_name, term=None)
+        m.attrs.update({"forward": O("m.forward"), "_children": [], "__module__": modname, "_label": "m"})
+        try:
+            res = it.call_function(at, [m, O("backend")], {})
+            fwd = res.attrs.get("forward") if isinstance(res, Obj) else None
+            it.events = []
+            it.call_function(fwd, [P("x", None)], {})
+        except Unsupported as ex:
+            report.add(rule, cons, None, f"[{sname}] outside fragment: {ex}")
+            continue
+        applied = [e for e in it.events if e.kind == "callv" and is_optimize_result(e["callee"])]
+        if len(applied) != 1 or not applied[0]["args"]:
+            report.add(rule, cons, False, f"[{sname}] the first call must hand exactly one callable to torch._dynamo.optimize(backend)", len(applied), 1)
+            continue
+        target = applied[0]["args"][0]
+        is_nn = modname.startswith(("torch.nn.", "torch.ao."))
+        if is_nn:
+            ok = isinstance(target, FuncV) and target.module.name.startswith("unit_scaling")
+            report.add(rule, cons, ok, f"[{sname}] TorchDynamo skips an outermost frame that lives in torch.nn: the root must be entered through a function of the library (else nothing is captured and the transform silently does nothing)", fmt(target)[:120], "a function defined in unit_scaling that calls the module")
+        else:
+            ok = target is res or (isinstance(target, FuncV) and target.module.name.startswith("unit_scaling"))
+            report.add(rule, cons, ok, f"[{sname}] Dynamo wraps the module copy (or a library function calling it)", fmt(target)[:120], "the module copy", nontrivial=False)
+
+
 def check(report: Report, repo: Repo) -> None:
     report.rule_text = (
         "R1 (copy before write): abstractly execute apply_transform on a fresh and on an already-transformed abstract module:"
@@ -120,8 +168,8 @@ def check(report: Report, repo: Repo) -> None:
                 resets = [i_ for i_, e in enumerate(it.events) if e.kind == "call" and e["callee"] == "torch._dynamo.reset"]
                 opt_at = [i_ for i_, e in enumerate(it.events) if e.kind == "call" and e["callee"] == "torch._dynamo.optimize"]
                 report.add("R5-cache-flags", f"{cons}::new_forward::dynamo-reset", bool(resets) and bool(opt_at) and resets[0] < opt_at[0], f"[{sname}] Dynamo's compile caches are reset before the module is re-traced (otherwise the 9th module of one class exceeds the recompile limit and silently runs un-transformed)", len(resets), ">=1 before optimize", nontrivial=False)
-                applied = [e for e in it.events if e.kind == "callv" and "torch._dynamo.optimize" in fmt(e["callee"])]
-                report.add("R5-cache-flags", f"{cons}::new_forward::module", len(applied) == 1 and applied[0]["args"][0] is res, f"[{sname}] Dynamo wraps the copy", len(applied), 1, nontrivial=False)
+                applied = [e for e in it.events if e.kind == "callv" and is_optimize_result(e["callee"])]
+                report.add("R5-cache-flags", f"{cons}::new_forward::module", len(applied) == 1 and (applied[0]["args"][0] is res or isinstance(applied[0]["args"][0], FuncV)), f"[{sname}] Dynamo wraps the copy", len(applied), 1, nontrivial=False)
                 report.add("R5-cache-flags", f"{cons}::new_forward::flag-cleared", res.attrs.get("rerun_transform") is False, f"[{sname}] rerun_transform is cleared after the wrapper is rebuilt", fmt(res.attrs.get("rerun_transform")), False)
             else:
                 report.add("R5-cache-flags", f"{cons}::new_forward::second-call", len(opt) == 0, f"[{sname}] a repeated call reuses the cached wrapper (every earlier transform applied exactly once)", len(opt), 0)
@@ -132,6 +180,8 @@ def check(report: Report, repo: Repo) -> None:
             pat = [e for e in pat if _pa(e, 0, "target") is res]  # patches of other objects (Dynamo internals) are not this rule's
             okp = len(pat) == 1 and _pa(pat[0], 1, "attribute") == "forward" and _pa(pat[0], 2, "new") is res.attrs.get("base_forward")
             report.add("R5-cache-flags", f"{cons}::new_forward::patch", okp, f"[{sname}] call {call_no}: the traced call sees base_forward as module.forward", len(pat), 1, nontrivial=False)
+
+    check_root_entry(report, repo, "R7-dynamo-entry")
 
     # ------------------------------------------------ R2 composition order
     cb = it.get_global(TU, "_compose_backends")
